@@ -158,7 +158,9 @@ func leadershipRoundTrip(main *world) (*caseRec, func()) {
 		st := x.s.GetStorage()
 		kb := kvx15.New(st.Base)
 		st.Base = kb
-		w := &world{x: &srv15.Srv{S: x.s}, st: st, b: kb, raw: kv.NewEtcdKVBase(x.s.GetClient(), path.Dir(x.s.GetClusterRootPath())), ctx: context.Background(), R: main.R}
+		ekv := kvx15.NewEtcdKV(x.s.GetClient().KV)
+		x.s.GetClient().KV = ekv
+		w := &world{x: &srv15.Srv{S: x.s}, st: st, b: kb, ek: ekv, raw: kv.NewEtcdKVBase(x.s.GetClient(), path.Dir(x.s.GetClusterRootPath())), ctx: context.Background(), R: main.R}
 		for t := 0; t < 3; t++ {
 			w.thr = append(w.thr, &thread{who: fmt.Sprintf("t%d", t)})
 		}
@@ -185,5 +187,43 @@ func leadershipRoundTrip(main *world) (*caseRec, func()) {
 	// A leads again, without having been restarted: it must answer from storage, not from its earlier term
 	on(a, op{K: "get"}, op{K: "upd", T: 0, V: 150}, op{K: "get"}, op{K: "upd", T: 1, V: 250}, op{K: "get"})
 	main.R.Count("leadership-round-trip:A->B->A")
+	// a request of A is held just before its write while the leadership moves away: A has compared 300 against 250 ...
+	on(a, op{K: "begin", T: 2, V: 300})
+	if worlds[a].thr[2].state == 1 {
+		if !moveLeadership(c, b) {
+			on(a, op{K: "finish", T: 2})
+			skip("leadership did not move while a save of the first member was held")
+			return nil, cleanup
+		}
+		// ... B stores and acknowledges 400 ...
+		on(b, op{K: "upd", T: 0, V: 400}, op{K: "get"})
+		stale := len(rec.Ops)
+		// ... then the write of the deposed leader reaches etcd: it must be refused
+		on(a, op{K: "finish", T: 2})
+		on(b, op{K: "get"})
+		if strings.HasPrefix(rec.Obs[stale], "(BResp") {
+			main.R.Violate("C15:deposed-leader-save-accepted",
+				"member A compared UpdateGCSafePoint(300) against the stored 250 as leader and was held before its write; the leadership moved to B, "+
+					"B stored and acknowledged 400; A's write was then accepted by etcd and acknowledged: "+rec.Obs[stale]+", GetGCSafePoint on B: "+rec.Obs[stale+1], rec)
+		}
+		main.R.Count("leadership-round-trip:held-save-of-deposed-leader")
+		// the same with the leadership back at A before the write arrives (the leader key carries A's value again)
+		on(b, op{K: "begin", T: 1, V: 500})
+		if worlds[b].thr[1].state == 1 && moveLeadership(c, a) {
+			on(a, op{K: "upd", T: 0, V: 600}, op{K: "get"})
+			if moveLeadership(c, b) {
+				aba := len(rec.Ops)
+				on(b, op{K: "finish", T: 1}, op{K: "get"})
+				if strings.HasPrefix(rec.Obs[aba], "(BResp") {
+					main.R.Violate("C15:stale-save-accepted-after-leadership-returned",
+						"member B was held before writing 500 (compared against 400), the leadership went B->A (A stored 600)->B, then B's write was accepted: "+rec.Obs[aba], rec)
+				}
+				main.R.Count("leadership-round-trip:held-save-across-a-leadership-round-trip")
+			}
+		}
+		for _, x := range c.nodes {
+			worlds[x].drain(&rec)
+		}
+	}
 	return &rec, cleanup
 }
